@@ -369,7 +369,7 @@ Proof.
   induction rem as [|r IH]; intros s m H; simpl.
   - destruct (get_m s m) eqn:G; [apply J_finish_m; auto|eapply J_drop_none; eauto].
   - destruct (get_m s m) as [x|] eqn:G; [|eapply J_drop_none; eauto].
-    destruct (m_bad x).
+    destruct (nth (m_idx x) (m_bad x) false).
     + apply IH. jframem. auto.
     + destruct (try_start s m x) as [s' c] eqn:T.
       destruct (J_try_start _ _ _ _ _ _ H G T) as [H1 H2].
